@@ -497,6 +497,8 @@ class The(ResultQuantifier[T]):
             return sources
         sol_gen = self._child_._evaluate__(sources)
         result = None
+        # the outcome of an earlier evaluation says nothing about this one.
+        self._is_false_ = False
         for sol in sol_gen:
             if result is None:
                 result = sol
